@@ -219,6 +219,30 @@ PROPS["C01"] = {
     "level_note": "Trusted: Lean kernel, translator (message type, delimiter), synctest, harness. The glue between the modelled pieces is exercised, not proved.",
     "technique": "Lean 4 proof (round-trip + induction over the frame stream) + end-to-end delivery scenarios with wire-level model replay",
 }
+PROPS["C02"] = {
+    "lean": ["SioVerif.Props.C02"],
+    "components": ["timed:TestOrder"],
+    "facts": ["sioSendPathSingleAdd", "sioClientGateAtomic", "chanPacketQueueReady"],
+    "timeout": {"quick": 900, "thorough": 3000},
+    "rule": "real server and client on the in-memory network under virtual time, transport settled on long-polling, on WebSocket, or after a completed upgrade; 1..16 goroutines "
+            "per direction (16 in every fifth scenario) emit bursts of 1..12 events with 0..4 attachments (12 bytes .. 70 kB) at once; every frame each connection's decoder "
+            "receives is recorded (wire tap under the real decoder) and the stream is judged by the Lean stream checker `checkStream` (whole canonical blocks, every emitter's "
+            "sequence numbers counting up) and by the same predicate in Go; handler entry order per emitter and exactly-once delivery are checked. Forced schedules at the "
+            "client socket's send gate: an emit between the state change and the flush of the CONNECT reply, an emit that decided before the state change and acts after the "
+            "flush. Non-trivial = every scenario; distinct by description.",
+    "trusted_base": EXT + ["go1.26.8 testing/synctest", "the wire is observed at the receiving decoder's input (tapParser.Add), i.e. after the Engine.IO layer of the receiver",
+                           "the model's add step is atomic because every sender calls packetQueue.add once with all frames and add appends under one lock (facts read from the source)"],
+    "assumptions": ["the Engine.IO layer below the queue keeps order: polling pollQueue (C17's model), WebSocket one writer; exercised by the scenarios, proved for the batcher/pollQueue in C13/C17"],
+    "partial": ["order at handler entry (b) does not hold: one goroutine per decoded packet on both sides (finding D23)"],
+    "level_text": "Lean 4 theorems over the send queue for every interleaving of adds by any number of goroutines with gets: what went out followed by what is queued is the "
+                  "concatenation of whole blocks in the order of the add steps; every block is a contiguous segment; the blocks of one emitter appear in its program order; the "
+                  "stream the model can put on the wire is accepted by the stream checker that judges the observed wire (so a rejection is a disagreement with the model); whole "
+                  "blocks reassemble to one packet each. For the client socket's send gate, for every interleaving of emits with the state change, flush and disconnects: what was "
+                  "handed on followed by what waits is exactly what was emitted, in order, and after the flush nothing waits; with the pre-repair gate (state read first, acted on "
+                  "later) both a reordering and a stranded packet are derivable (decide). That the gate and the add are atomic is read from the source by the translator.",
+    "level_note": "Trusted: Lean kernel, translator (single add per packet, gate critical section, channel capacity), synctest, harness. Handler-entry order is a recorded finding.",
+    "technique": "Lean 4 proof (invariant over all interleavings of the send queue and the send gate) + concurrent-emitter scenarios judged by the proved stream checker + forced schedules",
+}
 PROPS["C03"] = {
     "lean": ["SioVerif.Props.C03"],
     "components": ["timed:TestAcks"],
